@@ -14,7 +14,7 @@ from . import tlc
 # core_check.py).  When a `fix:` commit repairs one of them, remove its id here (and its entry from known_findings.json): the
 # intended clause then becomes the expectation.  Whether an exercised deviation is a KNOWN-FINDING or a VIOLATION is decided at run
 # time from known_findings.json (harness/findings.py), not here.
-ALL_DEVS = ['DYNAMIC-NS-CREATED-BY-OUT', 'OUT-PATH-THROUGH-VALUE']     # FALSY-NONMAPPING-AS-EMPTY-NS repaired in /repo
+ALL_DEVS = []     # FALSY-NONMAPPING-AS-EMPTY-NS, OUT-PATH-THROUGH-VALUE and DYNAMIC-NS-CREATED-BY-OUT repaired in /repo
 
 HEADER = '''---- MODULE %(name)s ----
 EXTENDS Ports, Json
